@@ -60,3 +60,17 @@ def exc_sig(e):
             frame = fr
     where = "%s:%s" % (frame.filename.split("/pandapower/", 1)[1], frame.name) if frame else "?"
     return "%s@%s" % (type(e).__name__, where)
+
+
+def pf_outcome(e):
+    """classify an exception raised by a power-flow style calculation on a generated (valid) network:
+    ("skip", reason) for documented outcomes, ("fail", signature) for a crash"""
+    import pandapower as pp
+    from pandapower.auxiliary import LoadflowNotConverged
+    name = type(e).__name__
+    if isinstance(e, LoadflowNotConverged) or name in ("LoadflowNotConverged", "OPFNotConverged", "ControllerNotConverged",
+                                                        "NetCalculationNotConverged"):
+        return "skip", "not-converged"
+    if isinstance(e, (UserWarning, NotImplementedError)):
+        return "skip", "rejected:" + exc_sig(e)
+    return "fail", "crash/" + exc_sig(e)
